@@ -206,6 +206,22 @@ func sessAskB(l *LspServer, ub lsp.DocumentURI) []string {
 			v = append(v, sessLoc(x.URI, x.Range))
 		}
 		out = append(out, "D-b="+sessSort(v))
+		refs, _ := l.TextDocumentReferences(ctx, lsp.ReferenceParams{TextDocumentPositionParams: at})
+		var rv []string
+		for _, x := range refs {
+			rv = append(rv, sessLoc(x.URI, x.Range))
+		}
+		out = append(out, "R-b="+sessSort(rv))
+		edit, err := l.TextDocumentRename(ctx, lsp.RenameParams{TextDocument: at.TextDocument, Position: at.Position, NewName: "zz"})
+		var ev []string
+		if err == nil {
+			for u, es := range edit.Changes {
+				for _, e := range es {
+					ev = append(ev, sessLoc(lsp.DocumentURI(u), e.Range))
+				}
+			}
+		}
+		out = append(out, "N-b="+sessSort(ev))
 	}
 	return out
 }
@@ -235,8 +251,8 @@ func VerifRun_Session() {
 		}
 	}
 	for k := 0; k < verifParam("STEPS"); k++ {
-		op := verifConcretize(verifRange("op", 0, 6))
-		if mask := verifParamOr("OPMASK", 127); mask&(1<<uint(op)) == 0 {
+		op := verifConcretize(verifRange("op", 0, 7))
+		if mask := verifParamOr("OPMASK", 255); mask&(1<<uint(op)) == 0 {
 			verifAssume(false) // (this registration explores a subset of the operations, with longer histories)
 		}
 		switch op {
@@ -277,6 +293,11 @@ func VerifRun_Session() {
 				_ = l.WorkspaceChangeWatchedFiles(ctx, lsp.DidChangeWatchedFilesParams{Changes: []lsp.FileEvent{{URI: uc, Type: lsp.Created}}})
 			}
 			cExists = !cExists
+		case 7: // the file watcher reports a.lua as changed (a late echo of a save: the disk is as it was)
+			if !open || !unsaved || disk == sessA[0] {
+				verifAssume(false) // (explored where it matters: the user saved and has typed on since)
+			}
+			_ = l.WorkspaceChangeWatchedFiles(ctx, lsp.DidChangeWatchedFilesParams{Changes: []lsp.FileEvent{{URI: ua, Type: lsp.Changed}}})
 		case 6: // nothing (shorter histories)
 			if k+1 < verifParam("STEPS") {
 				verifAssume(false) // only as a suffix, so that each shorter history is explored once... approximately
@@ -336,6 +357,8 @@ func VerifRun_Session() {
 				msg += " (completion)"
 			case 'S':
 				msg += " (outline)"
+			case 'N':
+				msg += " (rename)"
 			}
 			verifViolation(sessClass(got[i], cur, disk), msg)
 		}
